@@ -60,14 +60,28 @@ func (w *world) open() {
 // base commits a block in which every name of codeAt holds the given code, balances are initBal and the storage
 // is baseStor (committed, i.e. in the storage trie); returns the hash to build account managers on.
 func (w *world) base(codeAt map[string][]byte, baseStor map[string]map[string]int) (common.Hash, error) {
+	return w.baseBal(codeAt, baseStor, nil)
+}
+
+// baseBal: like base with the balances of the spec's initial state.  An address of createdNames exists in the base
+// block only when it holds funds there (a creation towards it collides); otherwise it is not touched at all.
+func (w *world) baseBal(codeAt map[string][]byte, baseStor map[string]map[string]int, bal map[string]int) (common.Hash, error) {
 	w.n++
 	if w.db == nil || w.n%dbReuse == 0 {
 		w.open()
 	}
+	if bal == nil {
+		bal = initBal
+	}
 	am := account.NewManager(common.Hash{}, w.db)
+	for _, n := range createdNames {
+		if bal[n] > 0 {
+			am.GetAccount(addrOf[n]).SetBalance(big.NewInt(int64(bal[n])))
+		}
+	}
 	for _, n := range allNames {
 		acc := am.GetAccount(addrOf[n])
-		acc.SetBalance(big.NewInt(int64(initBal[n])))
+		acc.SetBalance(big.NewInt(int64(bal[n])))
 		if code, ok := codeAt[n]; ok && len(code) > 0 {
 			acc.SetCode(append(types.Code(nil), code...))
 		}
@@ -190,13 +204,21 @@ func mkEvent(t, k, to, ctx string, v int, s string, g, c uint64, d int, m string
 	if c > 1<<30 {
 		ci = -2
 	}
-	return obsEvent{"t": t, "k": k, "to": to, "ctx": ctx, "v": v, "s": s, "g": gi, "c": ci, "d": d, "m": m}
+	return obsEvent{"t": t, "k": k, "to": to, "ctx": ctx, "v": v, "s": s, "g": gi, "c": ci, "d": d, "m": m, "rl": 0, "cf": false}
+}
+
+// endEvent: the end of a frame; cf = it is a creation frame, rl = length of the data it returns (the code to deposit)
+func (t *frameTracer) endEvent(k, to, ctx string, g, c uint64, depth int, m string, rl int) obsEvent {
+	e := mkEvent("end", k, to, ctx, 0, "", g, c, depth-1, m)
+	e["rl"], e["cf"] = rl, t.kindAt[depth] == "create"
+	return e
 }
 
 type frameTracer struct {
 	evs      []obsEvent
 	pend     map[int]bool
-	fresh    map[int]bool // a call was issued towards this depth and no op of the callee has been seen yet
+	fresh    map[int]bool   // a call was issued towards this depth and no op of the callee has been seen yet
+	kindAt   map[int]string // "create" | "call": how the frame at this depth was entered
 	maxDepth int
 	nops     int
 	full     bool // record the event list (tree programs); otherwise only depth / op count / touched accounts
@@ -216,7 +238,7 @@ func (t *frameTracer) touch(a common.Address, keys ...common.Hash) {
 }
 
 func newTracer(full bool) *frameTracer {
-	return &frameTracer{pend: map[int]bool{}, fresh: map[int]bool{}, full: full}
+	return &frameTracer{pend: map[int]bool{}, fresh: map[int]bool{}, kindAt: map[int]string{}, full: full}
 }
 
 func (t *frameTracer) CaptureStart(from, to common.Address, call bool, input []byte, gas uint64, value *big.Int) error {
@@ -277,7 +299,7 @@ func (t *frameTracer) CaptureState(env *vm.EVM, pc uint64, op vm.OpCode, gas, co
 	t.sync(depth, gas, stack, ctx)
 	d := depth - 1
 	if err != nil {
-		t.evs = append(t.evs, mkEvent("end", "err", "", ctx, 0, "", gas, cost, d, err.Error()))
+		t.evs = append(t.evs, t.endEvent("err", "", ctx, gas, cost, depth, err.Error(), 0))
 		return nil
 	}
 	switch {
@@ -286,26 +308,28 @@ func (t *frameTracer) CaptureState(env *vm.EVM, pc uint64, op vm.OpCode, gas, co
 	case op >= vm.LOG0 && op <= vm.LOG4:
 		t.evs = append(t.evs, mkEvent("log", "", "", ctx, 0, "", gas, cost, d, ""))
 	case op == vm.CALL || op == vm.CALLCODE:
-		t.pend[depth], t.fresh[depth+1] = true, true
+		t.pend[depth], t.fresh[depth+1], t.kindAt[depth+1] = true, true, "call"
 		k := "call"
 		if op == vm.CALLCODE {
 			k = "callcode"
 		}
 		t.evs = append(t.evs, mkEvent("call", k, nameOfAddr(common.BigToAddress(stack.Back(1))), ctx, smallInt(stack.Back(2)), "", gas, cost, d, ""))
 	case op == vm.DELEGATECALL || op == vm.STATICCALL:
-		t.pend[depth], t.fresh[depth+1] = true, true
+		t.pend[depth], t.fresh[depth+1], t.kindAt[depth+1] = true, true, "call"
 		k := "delegatecall"
 		if op == vm.STATICCALL {
 			k = "staticcall"
 		}
 		t.evs = append(t.evs, mkEvent("call", k, nameOfAddr(common.BigToAddress(stack.Back(1))), ctx, 0, "", gas, cost, d, ""))
 	case op == vm.CREATE:
-		t.pend[depth], t.fresh[depth+1] = true, true
-		t.evs = append(t.evs, mkEvent("call", "create", "", ctx, smallInt(stack.Back(0)), "", gas, cost, d, ""))
-	case op == vm.STOP || op == vm.RETURN:
-		t.evs = append(t.evs, mkEvent("end", "stop", "", ctx, 0, "", gas, cost, d, ""))
+		t.pend[depth], t.fresh[depth+1], t.kindAt[depth+1] = true, true, "create"
+		t.evs = append(t.evs, mkEvent("call", "create", nameOfAddr(crypto.CreateContractAddress(contract.GetAddress(), txHash)), ctx, smallInt(stack.Back(0)), "", gas, cost, d, ""))
+	case op == vm.STOP:
+		t.evs = append(t.evs, t.endEvent("stop", "", ctx, gas, cost, depth, "", 0))
+	case op == vm.RETURN:
+		t.evs = append(t.evs, t.endEvent("stop", "", ctx, gas, cost, depth, "", smallInt(stack.Back(1))))
 	case op == vm.SELFDESTRUCT:
-		t.evs = append(t.evs, mkEvent("end", "suicide", nameOfAddr(common.BigToAddress(stack.Back(0))), ctx, 0, "", gas, cost, d, ""))
+		t.evs = append(t.evs, t.endEvent("suicide", nameOfAddr(common.BigToAddress(stack.Back(0))), ctx, gas, cost, depth, "", 0))
 	}
 	return nil
 }
@@ -318,14 +342,14 @@ func (t *frameTracer) CaptureFault(env *vm.EVM, pc uint64, op vm.OpCode, gas, co
 	t.sync(depth, gas, stack, ctx)
 	t.nops--
 	if op == vm.REVERT {
-		t.evs = append(t.evs, mkEvent("end", "revert", "", ctx, 0, "", gas, cost, depth-1, ""))
+		t.evs = append(t.evs, t.endEvent("revert", "", ctx, gas, cost, depth, "", 0))
 		return nil
 	}
 	msg := ""
 	if err != nil {
 		msg = err.Error()
 	}
-	t.evs = append(t.evs, mkEvent("end", "err", "", ctx, 0, "", gas, cost, depth-1, msg))
+	t.evs = append(t.evs, t.endEvent("err", "", ctx, gas, cost, depth, msg, 0))
 	return nil
 }
 
@@ -356,14 +380,20 @@ func gasField(g uint64) []int64 { return []int64{int64(g >> 30), int64(g & (1<<3
 
 // call runs one transaction-level evm.Call on a fresh manager over the given base block.
 func (w *world) call(base common.Hash, to common.Address, input []byte, gas uint64, value int, full bool, names []string) (res *runResult) {
+	return w.exec(base, "call", to, input, gas, value, full, names)
+}
+
+// exec runs one transaction-level evm.Call (kind "call": input = call data) or evm.Create (kind "create": input = init
+// code, to = the address the sender creates) on a fresh manager over the given base block.
+func (w *world) exec(base common.Hash, kind string, to common.Address, input []byte, gas uint64, value int, full bool, names []string) (res *runResult) {
 	am := account.NewManager(base, w.db)
 	tr := newTracer(full)
 	evm := newEVM(am, tr)
 	res = &runResult{Gas: gas}
 	toName := nameOfAddr(to)
 	if full {
-		tr.evs = append(tr.evs, mkEvent("call", "call", toName, "U", value, "", gas, 0, -1, ""))
-		tr.fresh[1] = true
+		tr.evs = append(tr.evs, mkEvent("call", kind, toName, "U", value, "", gas, 0, -1, ""))
+		tr.fresh[1], tr.kindAt[1] = true, kind
 	}
 	func() {
 		defer func() {
@@ -371,7 +401,14 @@ func (w *world) call(base common.Hash, to common.Address, input []byte, gas uint
 				res.Crash = fmt.Sprint(r)
 			}
 		}()
-		ret, left, err := evm.Call(am.GetAccount(addrOf["U"]), to, input, gas, big.NewInt(int64(value)))
+		var ret []byte
+		var left uint64
+		var err error
+		if kind == "create" {
+			ret, _, left, err = evm.Create(am.GetAccount(addrOf["U"]), input, gas, big.NewInt(int64(value)))
+		} else {
+			ret, left, err = evm.Call(am.GetAccount(addrOf["U"]), to, input, gas, big.NewInt(int64(value)))
+		}
 		res.Left, res.RetLen = left, len(ret)
 		switch {
 		case err == nil:
